@@ -112,7 +112,9 @@ class LoggedKV(KVStore):
         if extra > 0:
             yield extra
         value = yield from super().get(key_)
-        self.w.rec("gd", self.idx, ctx, k=key_, v=value)
+        node = self.w.nodes.get(self.idx)
+        marks = sorted(node.dirty_keys) if self.w.proto == "chain" and node is not None else []
+        self.w.rec("gd", self.idx, ctx, k=key_, v=value, marks=marks)
         return value
 
 
